@@ -1740,44 +1740,344 @@ Section Purge.
     (forall j, j < nb -> List.length (v_ins (nth j (b_vbody st) dv)) = s_nins (kid sb0 j)) /\
     (forall j, j < nb -> Q j (nth j (b_vbody st) dv)).
 
-  Lemma purge_one_inv st i st' : PI st -> i < np -> purge_one ps ins st i = Some st' ->
-    PI st' /\ b_uirecv st' = b_uirecv st.
+  Lemma purge_one_inv st i st' : PI st -> i < np -> nth i (b_kept st) false = true ->
+    purge_one ps ins st i = Some st' ->
+    PI st' /\ b_uirecv st' = b_uirecv st /\ (forall i', i' <> i -> nth i' (b_kept st') false = nth i' (b_kept st) false).
   Proof.
-    intros (L1 & L2 & L3 & L4 & L5 & SK & P3 & P4 & P5 & P6 & PC & D1 & D2 & D4 & DQ) Hi H.
+    intros (L1 & L2 & L3 & L4 & L5 & SK & P3 & P4 & P5 & P6 & PC & D1 & D2 & D4 & DQ) Hi Ek H.
     unfold purge_one in H.
     destruct (nth i (b_uirecv st) None) as [o|] eqn:Eu.
     { inversion H; subst. split; auto. repeat split; auto; apply SK. }
     assert (Huses : forall j k, In (j, k) (uses i 0 (b_body st)) <->
-              j < nb /\ nth_error (sargs body j) k = Some (AParam i) /\ nth i (b_kept st) false = true).
+              j < nb /\ nth_error (sargs body j) k = Some (AParam i)).
     { intros j k. rewrite uses_spec. rewrite Nat.sub_0_r. simpl. rewrite L5. split.
       - intros (_ & Hj & Hk & Hu). destruct (SK j) as (_ & _ & SL). rewrite (SL Hj) in Hk.
         rewrite (PC j k Hj Hk) in Hu. apply has_ui_conn_of in Hu. tauto.
-      - intros (Hj & Ha & Hk). destruct (SK j) as (_ & _ & SL).
+      - intros (Hj & Ha). destruct (SK j) as (_ & _ & SL).
         assert (Hkl : k < s_nins (kid sb0 j)).
         { apply nth_error_nth2 with (d := AConst 0) in Ha as [_ Ha]. specialize (Hargs j Hj). lia. }
         rewrite (SL Hj). rewrite (PC j k Hj Hkl). repeat split; auto; try lia.
         apply has_ui_conn_of. auto. }
-    destruct (nth i (b_kept st) false) eqn:Ek.
-    2:{ (* already removed: cannot happen during the single pass, but harmless *)
-        assert (Hnil : uses i 0 (b_body st) = []).
-        { destruct (uses i 0 (b_body st)) as [|[j k] r] eqn:E; auto.
-          assert (In (j, k) (uses i 0 (b_body st))) by (rewrite E; simpl; auto).
-          apply Huses in H0. destruct H0 as (_ & _ & F). discriminate. }
-        rewrite Hnil in H. inversion H; subst; simpl. split; auto.
-        unfold PI; simpl. rewrite !upd_nth_length.
-        assert (Hkept : upd_nth i false (b_kept st) = b_kept st).
-        { rewrite <- Ek at 1. apply upd_nth_same_val. }
-        rewrite Hkept.
-        split; auto. split; auto. split; auto. split; auto. split; auto. split; [exact SK|].
-        split; [|split; [|split; [|split; [exact P6|split; [exact PC|split; [|split; [exact D2|split; [exact D4|exact DQ]]]]]]]].
-        - intros i' Hi' Hk'. rewrite nth_upd_other; auto. intros ->. congruence.
-        - intros i' j k Hi' Hk' Hj Ha. destruct (Nat.eq_dec i' i) as [->|Hne].
-          + exfalso. assert (In (j, k) (uses i 0 (b_body st))).
-            { apply Huses. admit. }
-            admit.
-          + rewrite nth_upd_other; auto.
-        - admit.
-        - admit. }
-    admit.
-  Admitted.
+    assert (Hkother : forall i', i' <> i -> nth i' (upd_nth i false (b_kept st)) false = nth i' (b_kept st) false).
+    { intros i' Hne. apply nth_upd_other. auto. }
+    assert (Hkself : nth i (upd_nth i false (b_kept st)) false = false).
+    { apply nth_upd_same. lia. }
+    assert (Hconn_other : forall a, a <> Some (AParam i) ->
+              conn_of (upd_nth i false (b_kept st)) a = conn_of (b_kept st) a).
+    { intros [[i'|j l|z]|] Hne; simpl; auto. rewrite Hkother; auto. intros ->. congruence. }
+    destruct (uses i 0 (b_body st)) as [|[j0 k0] [|jk2 r]] eqn:Eus.
+    - (* no use: the interface node is dropped, the macro input keeps pointing at it *)
+      assert (Hno : forall j k, j < nb -> nth_error (sargs body j) k <> Some (AParam i)).
+      { intros j k Hj Ha. assert (Hin : In (j, k) []) by (apply Huses; auto). destruct Hin. }
+      inversion H; subst; simpl. split; [|split; auto].
+      unfold PI; simpl. rewrite !upd_nth_length.
+      split; auto. split; auto. split; auto. split; auto. split; auto. split; [exact SK|].
+      split; [|split; [|split; [|split; [|split; [|split; [|split; [exact D2|split; [exact D4|exact DQ]]]]]]]].
+      + intros i' Hi' Hk'. destruct (Nat.eq_dec i' i) as [->|Hne]; [congruence|].
+        rewrite Hkother in Hk' by auto. rewrite nth_upd_other; auto.
+      + intros i' j k Hi' Hk' Hj Ha. destruct (Nat.eq_dec i' i) as [->|Hne]; [exfalso; eapply Hno; eauto|].
+        rewrite Hkother in Hk' by auto. rewrite nth_upd_other; auto.
+      + intros i' Hi' Hk'. destruct (Nat.eq_dec i' i) as [->|Hne].
+        * rewrite nth_upd_same by lia. exact I.
+        * rewrite Hkother in Hk' by auto. rewrite nth_upd_other by auto. apply P5; auto.
+      + intros i' Hi' Hk'. destruct (Nat.eq_dec i' i) as [->|Hne]; [exact Eu|].
+        rewrite Hkother in Hk' by auto. auto.
+      + intros j k Hj Hk. rewrite PC by auto. symmetry. apply Hconn_other. apply Hno; auto.
+      + intros i' j k Hi' Hk' Hr. destruct (Nat.eq_dec i' i) as [->|Hne].
+        * rewrite nth_upd_same in Hr by lia. discriminate.
+        * rewrite Hkother in Hk' by auto. rewrite nth_upd_other in Hr by auto. auto.
+    - (* a single use: link the macro input to that child input, drop the interface node *)
+      assert (H0 : j0 < nb /\ nth_error (sargs body j0) k0 = Some (AParam i)) by (apply Huses; simpl; auto).
+      destruct H0 as [Hj0 Ha0].
+      assert (Huniq : forall j k, j < nb -> nth_error (sargs body j) k = Some (AParam i) -> j = j0 /\ k = k0).
+      { intros j k Hj Ha. assert (Hin : In (j, k) [(j0, k0)]) by (apply Huses; auto).
+        destruct Hin as [Hin|[]]. inversion Hin; auto. }
+      assert (Hk0 : k0 < List.length (sargs body j0)).
+      { apply nth_error_nth2 with (d := AConst 0) in Ha0 as [_ Ha0]. exact Ha0. }
+      assert (Hk0' : k0 < s_nins (kid sb0 j0)) by (specialize (Hargs j0 Hj0); lia).
+      destruct (compat _ _); [|discriminate].
+      destruct (SK j0) as (SN0 & SO0 & SL0).
+      inversion H; subst; simpl. split; [|split; auto].
+      unfold PI; simpl. rewrite !upd_nth_length.
+      split; auto. split; auto. split; auto. split; auto. split; auto.
+      split; [|split; [|split; [|split; [|split; [|split; [|split; [|split]]]]]]].
+      + intros j. rewrite nth_upd. destruct (Nat.eqb_spec j0 j) as [->|Hne]; [|apply SK].
+        replace (Nat.ltb j (List.length (b_body st))) with true by (symmetry; apply Nat.ltb_lt; lia).
+        simpl. split; auto. split; auto. intros _. rewrite upd_nth_length. auto.
+      + intros i' Hi' Hk'. destruct (Nat.eq_dec i' i) as [->|Hne]; [congruence|].
+        rewrite Hkother in Hk' by auto. rewrite nth_upd_other; auto.
+      + intros i' j k Hi' Hk' Hj Ha. destruct (Nat.eq_dec i' i) as [->|Hne].
+        * rewrite nth_upd_same by lia. destruct (Huniq j k Hj Ha) as [-> ->]. reflexivity.
+        * rewrite Hkother in Hk' by auto. rewrite nth_upd_other; auto.
+      + intros i' Hi' Hk'. destruct (Nat.eq_dec i' i) as [->|Hne].
+        * rewrite nth_upd_same by lia. auto.
+        * rewrite Hkother in Hk' by auto. rewrite nth_upd_other by auto. apply P5; auto.
+      + intros i' Hi' Hk'. destruct (Nat.eq_dec i' i) as [->|Hne]; [exact Eu|].
+        rewrite Hkother in Hk' by auto. auto.
+      + intros j k Hj Hk. rewrite nth_upd. destruct (Nat.eqb_spec j0 j) as [->|Hnj].
+        * replace (Nat.ltb j (List.length (b_body st))) with true by (symmetry; apply Nat.ltb_lt; lia).
+          simpl. rewrite nth_upd. destruct (Nat.eqb_spec k0 k) as [->|Hnk].
+          -- replace (Nat.ltb k _) with true by (symmetry; apply Nat.ltb_lt; rewrite (SL0 Hj); auto).
+             rewrite (PC j k Hj Hk), Ha0. simpl. rewrite Ek, Hkself. simpl. now rewrite Nat.eqb_refl.
+          -- rewrite (PC j k Hj Hk). symmetry. apply Hconn_other. intros Ha.
+             destruct (Huniq j k Hj Ha). congruence.
+        * rewrite (PC j k Hj Hk). symmetry. apply Hconn_other. intros Ha.
+          destruct (Huniq j k Hj Ha). congruence.
+      + intros i' j k Hi' Hk' Hr. destruct (Nat.eq_dec i' i) as [->|Hne].
+        * rewrite nth_upd_same in Hr by lia. inversion Hr; subst j k.
+          rewrite nth_upd_same by lia. rewrite SN0. fold (kid sb0 j0). rewrite set_in_ins.
+          apply nth_upd_same. rewrite D4; auto.
+        * rewrite Hkother in Hk' by auto. rewrite nth_upd_other in Hr by auto.
+          rewrite <- (D1 i' j k Hi' Hk' Hr).
+          pose proof (P5 i' Hi' Hk') as P5'. rewrite Hr in P5'. destruct P5' as [Hj Ha].
+          destruct (Nat.eq_dec j j0) as [->|Hnj]; [|rewrite nth_upd_other by lia; reflexivity].
+          rewrite nth_upd_same by lia. rewrite set_in_ins. apply nth_upd_other.
+          intros ->. congruence.
+      + intros j k z Hj Ha. rewrite <- (D2 j k z Hj Ha).
+        destruct (Nat.eq_dec j j0) as [->|Hnj]; [|rewrite nth_upd_other by lia; reflexivity].
+        rewrite nth_upd_same by lia. rewrite set_in_ins. apply nth_upd_other.
+        intros ->. congruence.
+      + split.
+        * intros j Hj. destruct (Nat.eq_dec j j0) as [->|Hnj]; [|rewrite nth_upd_other by lia; auto].
+          rewrite nth_upd_same by lia. rewrite set_in_ins, upd_nth_length. auto.
+        * intros j Hj. destruct (Nat.eq_dec j j0) as [->|Hnj]; [|rewrite nth_upd_other by lia; auto].
+          rewrite nth_upd_same by lia. rewrite SN0. fold (kid sb0 j0). apply HQ; auto.
+    - (* forked: the interface node stays *)
+      inversion H; subst. split; auto.
+      repeat split; auto; apply SK.
+  Qed.
+
+  Lemma purge_inv is : forall st st', NoDup is ->
+    (forall i, In i is -> i < np /\ nth i (b_kept st) false = true) ->
+    PI st -> purge ps ins st is = Some st' -> PI st' /\ b_uirecv st' = b_uirecv st.
+  Proof.
+    induction is as [|i r IH]; intros st st' Hnd Hin HPI H; simpl in H.
+    - inversion H; subst. auto.
+    - destruct (purge_one ps ins st i) as [st1|] eqn:E1; [|discriminate].
+      destruct (Hin i ltac:(simpl; auto)) as [Hi Hk].
+      destruct (purge_one_inv st i st1 HPI Hi Hk E1) as (HPI1 & HU1 & HK1).
+      inversion Hnd; subst.
+      destruct (IH st1 st' H3) as [A B]; auto.
+      + intros i' Hi'. destruct (Hin i' ltac:(simpl; auto)) as [A B]. split; auto.
+        rewrite HK1; auto. intros ->. contradiction.
+      + split; auto. congruence.
+  Qed.
 End Purge.
+
+Lemma nth_repeat {A} (x d : A) n k : k < n -> nth k (repeat x n) d = x.
+Proof. revert k; induction n as [|n IH]; intros [|k] H; simpl; auto; try lia. apply IH; lia. Qed.
+
+Lemma nth_repeat_same {A} (x : A) n k : nth k (repeat x n) x = x.
+Proof. revert k; induction n as [|n IH]; intros [|k]; simpl; auto. Qed.
+
+Lemma apply_args_spec s (P : vnode -> Prop) args : forall v k0,
+  (forall v k x, k < k0 + List.length args -> P v -> P (set_in s v k x)) -> P v ->
+  let v' := apply_args s v k0 args in
+  P v' /\ v_outs v' = v_outs v /\ v_cache v' = v_cache v /\ List.length (v_ins v') = List.length (v_ins v) /\
+  (forall k, k < List.length (v_ins v) ->
+     nth k (v_ins v') None =
+     match (if Nat.leb k0 k then nth_error args (k - k0) else None) with
+     | Some (AConst z) => Some z
+     | _ => nth k (v_ins v) None
+     end).
+Proof.
+  induction args as [|a r IH]; intros v k0 HP Hv; simpl.
+  - repeat split; auto. intros k Hk. destruct (Nat.leb k0 k); auto. destruct (k - k0); auto.
+  - set (v1 := match a with AConst z => set_in s v k0 (Some z) | _ => v end).
+    assert (H1 : P v1 /\ v_outs v1 = v_outs v /\ v_cache v1 = v_cache v /\
+                 v_ins v1 = match a with AConst z => upd_nth k0 (Some z) (v_ins v) | _ => v_ins v end).
+    { unfold v1. destruct a as [i|j l|z]; auto.
+      rewrite set_in_outs, set_in_cache, set_in_ins. repeat split; auto. apply HP; auto. simpl; lia. }
+    destruct H1 as (P1 & O1 & C1 & I1).
+    destruct (IH v1 (S k0)) as (P2 & O2 & C2 & L2 & N2); auto.
+    { intros v0 k x Hk. apply HP. simpl. lia. }
+    assert (L1 : List.length (v_ins v1) = List.length (v_ins v)).
+    { rewrite I1. destruct a; auto. apply upd_nth_length. }
+    repeat split; auto; try congruence.
+    intros k Hk. rewrite N2 by lia.
+    destruct (Nat.leb_spec (S k0) k) as [Hle|Hgt].
+    + replace (Nat.leb k0 k) with true by (symmetry; apply Nat.leb_le; lia).
+      replace (k - k0) with (S (k - S k0)) by lia. simpl.
+      assert (Hsame : nth k (v_ins v1) None = nth k (v_ins v) None).
+      { rewrite I1. destruct a; auto. apply nth_upd_other. lia. }
+      now rewrite Hsame.
+    + destruct (Nat.eq_dec k k0) as [->|Hne].
+      * replace (Nat.leb k0 k0) with true by (symmetry; apply Nat.leb_le; lia). rewrite Nat.sub_diag. simpl.
+        rewrite I1. destruct a; auto. apply nth_upd_same; auto.
+      * replace (Nat.leb k0 k) with false by (symmetry; apply Nat.leb_gt; lia).
+        rewrite I1. destruct a; auto. apply nth_upd_other. lia.
+Qed.
+
+Definition built_ok (d : mdef) (l : string) (s : snode) (v : vnode) : Prop :=
+  wired d s /\ coh d s v /\ s_label_of s = l /\ v_ins v = map p_default (d_params d) /\
+  (forall lo, nth lo (v_outs v) None = None) /\ v_cache v = None.
+
+Lemma build_ok d : forall l s v, build d l = Some (s, v) -> built_ok d l s v.
+Proof.
+  induction d as [ps body rets fl IH] using mdef_ind'. intros l s v H.
+  cbn [build] in H.
+  destruct (negb (nodup_str (map fst rets))); [discriminate|].
+  destruct (script build (List.length ps) body [] []) as [[sb vb]|] eqn:Escr; [|discriminate].
+  destruct (link_rets _ 0 rets) as [st1|] eqn:Elink; [|discriminate].
+  destruct (purge ps (map p_default ps) st1 (seq 0 (List.length ps))) as [st2|] eqn:Epurge; [|discriminate].
+  destruct (configure fl (b_kept st2) (List.length sb)) as [[manual order]|] eqn:Ecfg; [|discriminate].
+  inversion H; subst s v; clear H.
+  (* the creator *)
+  destruct (script_spec _ _ _ _ _ _ _ Escr) as (sb' & vb' & Esb & Evb & HLs & HLv & Hscr).
+  simpl in Esb, Evb. subst sb' vb'.
+  (* the links to the outputs *)
+  destruct (link_rets_spec _ _ _ _ Elink) as (R1 & K1 & V1 & LU1 & SK1 & HU1 & HB1 & HR1).
+  simpl in R1, K1, V1, LU1, SK1, HU1, HB1, HR1. rewrite repeat_length in LU1, HU1, HR1.
+  set (np := List.length ps) in *. set (nb := List.length body) in *.
+  set (sb0 := b_body st1) in *.
+  assert (Hkid0 : forall j, kid sb0 j = kid sb j) by (intros j; apply same_skel_kid; exact SK1).
+  destruct SK1 as [SL1 SN1].
+  set (Q := fun (j : nat) (vj : vnode) =>
+              (forall lo, nth lo (v_outs vj) None = None) /\
+              match s_mac (nth j body dstmt) with
+              | None => fn_coh false vj
+              | Some d' => coh d' (kid sb0 j) vj /\
+                           forall k, List.length (sargs body j) <= k -> k < List.length (d_params d') ->
+                                     nth k (v_ins vj) None = p_default (nth k (d_params d') dparam)
+              end).
+  (* facts about every child the creator made *)
+  assert (Hchild : forall j, j < nb ->
+            List.length (sargs body j) <= s_nins (kid sb j) /\
+            List.length (sb_conns (nth j sb dsb)) = s_nins (kid sb j) /\
+            List.length (sb_orecv (nth j sb dsb)) = s_nouts (kid sb j) /\
+            (forall lo, nth lo (sb_orecv (nth j sb dsb)) None = None) /\
+            (forall k, k < s_nins (kid sb j) ->
+               nth k (sb_conns (nth j sb dsb)) [] =
+               match nth_error (sargs body j) k with Some a => arg_conn a | None => [] end) /\
+            match s_mac (nth j body dstmt) with
+            | None => kid sb j = SFn (s_label (nth j body dstmt)) false (List.length (sargs body j))
+            | Some d' => wired d' (kid sb j) /\ s_label_of (kid sb j) = s_label (nth j body dstmt)
+            end /\
+            List.length (v_ins (nth j vb dv)) = s_nins (kid sb j) /\
+            (forall k z, nth_error (sargs body j) k = Some (AConst z) -> nth k (v_ins (nth j vb dv)) None = Some z) /\
+            (forall lo, nth lo (v_outs (nth j vb dv)) None = None) /\
+            match s_mac (nth j body dstmt) with
+            | None => fn_coh false (nth j vb dv)
+            | Some d' => coh d' (kid sb j) (nth j vb dv) /\
+                         forall k, List.length (sargs body j) <= k -> k < List.length (d_params d') ->
+                                   nth k (v_ins (nth j vb dv)) None = p_default (nth k (d_params d') dparam)
+            end).
+  { intros j Hj. destruct (Hscr j Hj) as [Hok Hm]. unfold sargs, kid.
+    destruct (s_mac (nth j body dstmt)) as [d'|] eqn:Em.
+    - destruct Hm as (s' & v' & Eb & Hle & -> & ->). simpl.
+      destruct (IH j d' Em _ _ _ Eb) as (W' & C' & Lab' & I' & O' & Ca').
+      pose proof (wired_nins _ _ W') as Hnin.
+      assert (HP : forall v k x, k < 0 + List.length (s_args (nth j body dstmt)) ->
+                 coh d' s' v -> coh d' s' (set_in s' v k x)).
+      { intros v k x Hk Hc. apply set_in_coh; auto. lia. }
+      destruct (apply_args_spec s' (coh d' s') (s_args (nth j body dstmt)) v' 0 HP C') as (P2 & O2 & C2 & L2 & N2).
+      assert (Hlv : List.length (v_ins v') = s_nins s').
+      { rewrite I', map_length. auto. }
+      split; auto. split; [unfold pad; rewrite app_length, map_length, repeat_length; lia|].
+      split; [apply repeat_length|]. split; [intros lo; apply nth_repeat_same|].
+      split.
+      { intros k Hk. unfold pad.
+        destruct (nth_error (s_args (nth j body dstmt)) k) as [a|] eqn:Ea.
+        - pose proof (nth_error_nth2 _ _ a _ Ea) as [_ Hka].
+          rewrite app_nth1 by (now rewrite map_length).
+          apply nth_error_nth. now apply map_nth_error.
+        - apply nth_error_None in Ea. rewrite app_nth2 by (rewrite map_length; lia).
+          apply nth_repeat_same. }
+      split; [auto|]. split; [congruence|]. split.
+      { intros k z Ha. pose proof (nth_error_nth2 _ _ (AConst z) _ Ha) as [_ Hka].
+        rewrite N2 by lia. simpl. rewrite Nat.sub_0_r, Ha. reflexivity. }
+      split; [intros lo; rewrite O2; apply O'|].
+      split; [exact P2|].
+      intros k Hk1 Hk2. rewrite N2 by lia. simpl. rewrite Nat.sub_0_r.
+      replace (nth_error (s_args (nth j body dstmt)) k) with (@None arg) by (symmetry; now apply nth_error_None).
+      rewrite I'. change (@None Z) with (p_default dparam). now rewrite map_nth.
+    - destruct Hm as [-> ->]. simpl. rewrite !map_length.
+      split; auto. split; auto. split; auto. split; [intros [|[|lo]]; reflexivity|].
+      split.
+      { intros k Hk. destruct (nth_error (s_args (nth j body dstmt)) k) as [a|] eqn:Ea.
+        - apply nth_error_nth. now apply map_nth_error.
+        - apply nth_error_None in Ea. lia. }
+      split; auto. split; auto. split.
+      { intros k z Ha. apply nth_error_nth. now apply (map_nth_error arg_val) in Ha. }
+      split; [intros [|[|lo]]; reflexivity|].
+      split; [reflexivity|]. simpl. discriminate. }
+  assert (Hparam : forall j k i, j < nb -> nth_error (sargs body j) k = Some (AParam i) -> i < np).
+  { intros j k i Hj Ha. destruct (Hscr j Hj) as [Hok _]. rewrite forallb_forall in Hok.
+    specialize (Hok (AParam i) (nth_error_In _ _ Ha)). simpl in Hok. now apply Nat.ltb_lt in Hok. }
+  assert (HQ : forall j v k x, j < nb -> k < List.length (sargs body j) -> Q j v -> Q j (set_in (kid sb0 j) v k x)).
+  { intros j v k x Hj Hk [Qo Qc]. split; [intros lo; rewrite set_in_outs; apply Qo|].
+    destruct (Hchild j Hj) as (Hle & _ & _ & _ & _ & Hw & _).
+    destruct (s_mac (nth j body dstmt)) as [d'|].
+    - destruct Qc as [Qc Qd]. destruct Hw as [Hw _]. split.
+      + apply set_in_coh; auto. { now rewrite Hkid0. } rewrite <- (wired_nins _ _ Hw). lia.
+      + intros k1 Hk1 Hk1'. rewrite set_in_ins. rewrite nth_upd_other by lia. auto.
+    - rewrite Hkid0, Hw. simpl. unfold fn_coh in *. destruct v; simpl in *; auto. }
+  assert (Hargs : forall j, j < nb -> List.length (sargs body j) <= s_nins (kid sb0 j)).
+  { intros j Hj. rewrite Hkid0. apply Hchild; auto. }
+  assert (Hlen0 : List.length sb0 = nb) by lia.
+  assert (HPI1 : PI ps body (map p_default ps) sb0 Q st1).
+  { unfold PI. rewrite R1, K1, V1, map_length, seq_length, repeat_length. fold np nb sb0.
+    split; auto. split; auto. split; auto. split; [lia|]. split; auto.
+    split; [|split; [|split; [|split; [|split; [|split; [|split; [|split; [|split]]]]]]]].
+    - intros j. split; auto. split; auto. intros Hj. destruct (SN1 j) as (_ & -> & _). rewrite Hkid0. apply Hchild; auto.
+    - intros i Hi _. rewrite (nth_indep _ ROrphan (RUI 0)) by (rewrite map_length, seq_length; auto).
+      rewrite map_nth, seq_nth; auto.
+    - intros i j k Hi Hk. rewrite nth_repeat in Hk by auto. discriminate.
+    - intros i Hi Hk. rewrite nth_repeat in Hk by auto. discriminate.
+    - intros i Hi Hk. rewrite nth_repeat in Hk by auto. discriminate.
+    - intros j k Hj Hk. destruct (SN1 j) as (_ & -> & _). rewrite Hkid0 in Hk.
+      destruct (Hchild j Hj) as (_ & _ & _ & _ & Hc & _). rewrite (Hc k Hk).
+      destruct (nth_error (sargs body j) k) as [[i|j' lo|z]|] eqn:Ea; simpl; auto.
+      rewrite nth_repeat; auto. eapply Hparam; eauto.
+    - intros i j k Hi Hk. rewrite nth_repeat in Hk by auto. discriminate.
+    - intros j k z Hj Ha. destruct (Hchild j Hj) as (_ & _ & _ & _ & _ & _ & _ & Hd2 & _). eauto.
+    - intros j Hj. rewrite Hkid0. apply Hchild; auto.
+    - intros j Hj. destruct (Hchild j Hj) as (_ & _ & _ & _ & _ & _ & _ & _ & Ho & Hc).
+      split; auto. destruct (s_mac (nth j body dstmt)); auto. now rewrite Hkid0. }
+  destruct (purge_inv ps body (map p_default ps) sb0 Q HQ Hargs Hlen0 (seq 0 np) st1 st2) as [HPI2 HU2]; auto.
+  { apply seq_NoDup. }
+  { intros i Hi. apply in_seq in Hi. split; [lia|]. rewrite K1. apply nth_repeat. lia. }
+  destruct HPI2 as (L1 & L2 & L3 & L4 & L5 & SK & P3 & P4 & P5 & P6 & PC & D1 & D2 & D4 & DQ).
+  fold np nb in L1, L2, L3, L4, L5, SK, P3, P4, P5, P6, PC, D1, D2, D4, DQ.
+  assert (Hkid2 : forall j, kid (b_body st2) j = kid sb j).
+  { intros j. unfold kid. destruct (SK j) as (-> & _). apply Hkid0. }
+  assert (Huirecv : forall i, i < np -> nth i (b_uirecv st2) None = last_idx (AParam i) rets 0).
+  { intros i Hi. rewrite HU2, HU1 by auto. destruct (last_idx (AParam i) rets 0); auto. apply nth_repeat_same. }
+  assert (Horecv : forall j lo, j < nb -> lo < s_nouts (kid sb j) ->
+            nth lo (sb_orecv (nth j (b_body st2) dsb)) None = last_idx (AOut j lo) rets 0).
+  { intros j lo Hj Hlo. destruct (SK j) as (_ & -> & _). fold sb0.
+    destruct (Hchild j Hj) as (_ & _ & HLo & Hnone & _).
+    rewrite HB1 by (try rewrite HLo; auto; lia). destruct (last_idx (AOut j lo) rets 0); auto. }
+  unfold built_ok. cbn [d_params s_label_of v_ins v_outs v_cache].
+  split; [|split; [|split; [reflexivity|split; [reflexivity|split; [intros lo; apply nth_repeat_same|reflexivity]]]]].
+  - (* wired *)
+    cbn [wired]. split; [reflexivity|]. split; [reflexivity|]. split.
+    + unfold wired_level. fold np nb. rewrite HLs in Ecfg.
+      split; auto. split; auto. split; auto. split; [exact Ecfg|]. split; [exact Huirecv|].
+      split; [exact P3|]. split; [exact P4|]. split; [exact P5|]. split.
+      * intros i Hi Hl. destruct (nth i (b_kept st2) false) eqn:Ek; auto.
+        exfalso. apply Hl. rewrite <- Huirecv by auto. apply P6; auto.
+      * intros j Hj. cbv zeta. fold (kid (b_body st2) j). rewrite Hkid2.
+        destruct (Hchild j Hj) as (Hle & _ & HLo & _).
+        destruct (SK j) as (_ & SO & SL). split; auto. split; [rewrite SL, Hkid0; auto|].
+        split; [rewrite SO; fold sb0; destruct (SN1 j) as (_ & _ & ->); auto|].
+        split; [intros k Hk; apply PC; auto; now rewrite Hkid0|].
+        intros lo Hlo. apply Horecv; auto.
+    + apply (all2_nth _ dstmt dsb). split; [lia|]. intros j Hj. fold (kid (b_body st2) j). rewrite Hkid2.
+      destruct (Hchild j Hj) as (_ & _ & _ & _ & _ & Hw & _). exact Hw.
+  - (* coh *)
+    apply coh_intro; cbn [v_ins v_outs v_ui v_body v_cache]; [|discriminate|lia|].
+    + unfold coh_level. fold np nb. rewrite !map_length, repeat_length. fold np.
+      split; auto. split; auto. split; auto. split; auto.
+      split; [|split; [|split; [exact D1|split; [exact D2|split; [|split]]]]].
+      * intros i Hi. rewrite (nth_indep _ dv ((fun p => VN [p_default p] [None] None [] []) dparam)) by (now rewrite map_length).
+        rewrite map_nth. simpl. split; auto. split; auto. discriminate.
+      * intros i Hi _. rewrite (nth_indep _ dv ((fun p => VN [p_default p] [None] None [] []) dparam)) by (now rewrite map_length).
+        rewrite map_nth. simpl. change (@None Z) with (p_default dparam). now rewrite map_nth.
+      * intros j Hj. rewrite Hkid2, <- Hkid0. apply D4; auto.
+      * intros i o Hi Ho. rewrite nth_repeat_same.
+        rewrite (nth_indep _ dv ((fun p => VN [p_default p] [None] None [] []) dparam)) by (now rewrite map_length).
+        rewrite map_nth. reflexivity.
+      * intros j lo o Hj Ho. rewrite nth_repeat_same. destruct (DQ j Hj) as [Qo _]. now rewrite Qo.
+    + intros j Hj. destruct (DQ j Hj) as [_ Qc]. rewrite Hkid2, <- Hkid0. exact Qc.
+Qed.
